@@ -281,23 +281,42 @@ def comment_growth(t1, t2):
     if len(l1) != len(l2):
         return "[line count differs]"
     locs = set()
+    # opener[i] = index of the line on which the comment that line i starts inside was opened (None: not inside a comment);
+    # one scan over the first text, strings skipped
+    opener, cur, q, k = [], None, None, 0
+    for idx, line in enumerate(l1):
+        opener.append(cur)
+        k = 0
+        while k < len(line):
+            two = line[k:k + 2]
+            if cur is not None:
+                if two == "*/":
+                    cur, k = None, k + 2
+                    continue
+            elif q:
+                if line[k] == "\\":
+                    k += 2
+                    continue
+                if line[k] == q:
+                    q = None
+            elif line[k] in "\"'":
+                q = line[k]
+            elif two == "/*":
+                cur, k = idx, k + 2
+                continue
+            k += 1
+        q = None                      # a string never spans lines in serialised text
     for i, (x, y) in enumerate(zip(l1, l2)):
         if x == y:
             continue
         if x.lstrip(" \t") != y.lstrip(" \t"):
             return "[lines differ in more than leading white space]"
-        j = i - 1
-        while j >= 0:
-            o, c = l1[j].rfind("/*"), l1[j].rfind("*/")
-            if o >= 0 and o > c:
-                break
-            if c >= 0:
-                j = -1
-                break
-            j -= 1
-        if j < 0:
+        j = opener[i]
+        if j is None:
             return "[a differing line is not a continuation line of a comment]"
-        if _indent(y) - _indent(x) != _indent(l1[j]):
+        # a comment that opens on a continuation line of an earlier comment moves with that line
+        expected = _indent(l1[j]) if opener[j] is None else _indent(l2[j]) - _indent(l1[j])
+        if _indent(y) - _indent(x) != expected:
             return "[growth differs from the indentation of the line that opens the comment]"
         if l1[j].lstrip(" \t").startswith("/*"):
             k = j - 1
@@ -407,6 +426,34 @@ def refine(f, text, cause):
     return ""
 
 
+IDENT_ESC = "identifier: a spelling with an escape is written back without the escape"
+
+
+def escaped_idents(text):
+    """resolved values of the identifier-like tokens of `text` that are spelled with an escape AND whose resolved spelling,
+    written verbatim, is not read back as the same single token (so the escape was needed): `\\31 0`, `a\\:b`, `\\3`"""
+    out = []
+    try:
+        toks = _tok1(text, True)
+        lines = text.split("\n")
+        starts = [0]
+        for ln in lines:
+            starts.append(starts[-1] + len(ln) + 1)
+        offs = [starts[t[2] - 1] + t[3] - 1 for t in toks]
+        for i, t in enumerate(toks):
+            if t[0] not in ("IDENT", "HASH", "FUNCTION", "DIMENSION", "ATKEYWORD"):
+                continue
+            raw = text[offs[i]:offs[i + 1]] if i + 1 < len(toks) else text[offs[i]:]
+            if "\\" not in raw or t[1] == raw:
+                continue
+            back = _tok1(t[1])
+            if not (len(back) == 1 and back[0][0] == t[0] and back[0][1] == t[1]) and t[1] not in out:
+                out.append(t[1])
+    except Exception:  # noqa
+        pass
+    return out
+
+
 def candidates(f, text):
     """family texts of one end-to-end failure: '<kind> :: <object class> [@path] :: <cause> [<HEAD shape tag>]' for EVERY
     rule of c03_e2e._CAUSES that fires (the first one is c03_e2e.family's).  A sheet-level failure is often the union of
@@ -432,6 +479,17 @@ def candidates(f, text):
     if slash not in names and text is not None and re.search(r"@[^;{}]*/\s+\*", text) and \
             isinstance(f.get("text1"), str) and re.search(r"@[\w-]+[^;{}]*/\*", f["text1"]):
         names.append(slash)      # the glued comment swallowed so much that the rule of c03_e2e sees no second text
+    if text is not None and not first.startswith("exception") and isinstance(f.get("text1"), str):
+        vals = [v for v in escaped_idents(text) if v.lstrip("#") in f["text1"]]
+        if vals:
+            names.append(IDENT_ESC)  # HEAD writes the resolved value verbatim; the first text of the failing object has it
+    cr = 'calc: "int / int)" of the serialised text is a RATIO token'
+    if cr not in names and isinstance(f.get("text1"), str) and \
+            re.search(r"calc\([^()]*(?<![0-9.a-zA-Z])[0-9]+ / [0-9]+\)", f["text1"], re.I) and f.get("text2") != f["text1"]:
+        names.append(cr)         # the lost declaration shifts the following ones; c03_e2e's rule looks at a window only
+    uh = "unknown at-rule: #rrggbb is minimised to #rgb"
+    if uh not in names and re.search(r"tokens\[\d+\]\[1\]: #(.)\1(.)\2(.)\3 != #\1\2\3$", str(f.get("detail") or ""), re.S):
+        names.append(uh)         # _hash minimises every #c1c1c2c2c3c3, hex digits or not (c03_e2e's rule asks for hex digits)
     out = []
     for n in names:
         if n == "other":
